@@ -188,6 +188,16 @@ def case_compound(case, col=None):
     ureg = registry(auto)
     off, x, other, dst = case["off"], Fraction(case["x"]), case["other"], case["dst"]
     src = ureg.UnitsContainer({off: 1, other: 1})
+    # the same unit written as a string: with as_delta=False the offset unit stays an offset unit (the default reading is delta_<unit>)
+    for text in (f"{off} * {other}", f"{off} / {other}", f"{other} / {off}", f"{off} ** 2"):
+        s_, pu = attempt(ureg.parse_units, text, as_delta=False)
+        if s_ == "ok":
+            names_ = set(pu._units)
+            if any(n.startswith("delta_") for n in names_) or off not in names_:
+                raise Violation("as_delta_false_not_honoured", f"parse_units({text!r}, as_delta=False) = {dict(pu._units)}")
+        s_, pu = attempt(ureg.parse_units, text)
+        if s_ == "ok" and off in set(pu._units):
+            raise Violation("default_as_delta_not_applied", f"parse_units({text!r}) = {dict(pu._units)}")
     targets = {"same_dim": ureg.UnitsContainer({"kelvin": 1, other: 1}), "drop_factor": ureg.UnitsContainer({"kelvin": 1}),
                "other_offset": ureg.UnitsContainer({"degree_Fahrenheit": 1}), "unrelated": ureg.UnitsContainer({"second": 1})}
     tgt = targets[dst]
